@@ -22,12 +22,13 @@ CLAIMED = {
  "C13": dict(
   text="Deductive proof of the stack_ invariant 1 <= capacity and size <= capacity for every constructor and method, of LIFO postconditions over the whole view "
        "(AddValue = insert at position 0, RemoveTop = remove position 0 and return it), and of the exceptional postconditions (full / empty: panics, view unchanged); all capacities, sizes and histories.",
-  note="Trusted: front end, engine, solvers; class constant defaultCapacity_ >= 1 is a hypothesis (it is set to 16 in the class accessor, which is not under contract). The list operations used are proved under C01.",
+  note="Trusted: front end, engine, solvers; the class constant defaultCapacity_ >= 1 is no longer a hypothesis: it is a construction invariant over an immutable field, proved where the class object is allocated (Stack(): obligation Stack.constinv.stackClass_.1) and assumed of every class receiver. The registry map is assumed non-nil (initialised in its declaration). The list operations used are proved under C01.",
   design="DESIGN.md §4.C13"),
  "C15": dict(
   text="Deductive proof that And/Or/Sans/Xor return a fresh, strictly ordered set whose membership is exactly intersection/union/difference/symmetric difference of the operands, "
        "and that the operands' views are unchanged, without assuming the operands differ (aliasing allowed); all sets, all element types, any total-preorder collator.",
-  note="Hypotheses (stated as preconditions): both operands use the same collator and it is a total preorder. Trusted: front end, engine, solvers.",
+  note="Hypotheses (stated as preconditions): both operands use the same collator and it is a total preorder. Trusted: front end, engine, solvers. "
+       "For sets of mixed-type elements the default collator orders by type class (collator getType): that classification is outside the contract language and is covered by a BOUNDED stand-in on the real code (/verif/bounded/gettype_test.go; labelled bounded, not counted as proved).",
   design="DESIGN.md §4.C15"),
  "C17": dict(
   text="Deductive proof, for all inputs and all iterator states, of every method of iterator_ against the IteratorLike contracts "
@@ -64,7 +65,7 @@ CLAIMED.update({
        "(multiset counts; each ranker call returns an unconstrained value), terminate (variants on all loops), write nothing outside values[0:len], and yield an ascending result whenever the ranker is a deterministic total preorder "
        "(run structure via an alignment theory whose lemmas are themselves proved from div/mod by SMT, one by Lean 4 + Mathlib in the thorough tier); ReverseValues reverses exactly; ShuffleValues permutes; "
        "the Sort/Reverse/Shuffle methods of Array, List and Catalog are proved to have the same effect on their views, and the ordering postcondition is carried through the SorterLike and Sortable interface contracts (a collection sorted with a ranker is ordered by that ranker). Count lemmas (agree, split, extend, swap, reverse) are proved by mechanised induction.",
-  note="Hypotheses: a ranker call terminates normally and does not touch the arrays being sorted; randomizeIndex (crypto/rand) returns a value in [0,size) — trusted, not verified. "
+  note="Hypotheses: a ranker call terminates normally and does not touch the arrays being sorted; randomizeIndex's body is now verified (result in [0,size)) against assumed contracts of crypto/rand.Int, big.NewInt and (*big.Int).Int64; the one environment assumption is that the system random source does not fail. sorter_.ReverseValues is verified against the SorterLike.ReverseValues interface contract its callers use. "
        "Assumed: align_half in the quick tier (Lean-checked in thorough); 'equal multisets imply a bijection' (perm_bijection) links the two formulations of permutation for Catalog. "
        "Slices are at most 2^61 long (so width*2 cannot overflow). Trusted: front end, engine, solvers.",
   design="DESIGN.md §4.C09"),
@@ -88,7 +89,7 @@ CLAIMED.update({
        "Termination of the whole mutually recursive traversal is proved by a lexicographic variant (see C08).",
   note="NOT decided deductively (no contract within reach; reflective code): that the lexicographic/keyed lifts of a preorder are again preorders (standard mathematics, not mechanised), rankMaps beyond its empty/prefix cases "
        "(key arrays are sorted through reflection), rankSequences/rankInterfaces/rankStructures results (reflect Method/Call/Field), and insertion-order independence for maps. "
-       "Assumed contracts for reflect accessors (pure, kind-correct, non-panicking), cmplx.Abs/Phase as pure functions, Go string < as a strict total order, getType (trusted, string manipulation). "
+       "Assumed contracts for reflect accessors (pure, kind-correct, non-panicking), cmplx.Abs/Phase as pure functions, Go string < as a strict total order. getType's body is executed but its result is the uninterpreted gtype() (string prefixes are outside the contract language): a BOUNDED stand-in (/verif/bounded/gettype_test.go, exhaustive over the 17 predeclared kinds x 7 type constructors, interface{} and named/generic types; labelled bounded, not counted as proved) checks the classification on the real code. "
        "Known findings: NaN and complex branch-cut break transitivity.",
   design="DESIGN.md §4.C07"),
  "C08": dict(
@@ -96,7 +97,7 @@ CLAIMED.update({
        "(so a depth-limit panic leaves the collator usable), the mutual recursion is bounded by the lexicographic variant (maximum - depth, function rank, pointer nesting / operand swap) — which is how the self-containing-association stack overflow was found and fixed — "
        "plus agreement lemmas compare == (rank == Equal) per primitive kind (floats/complex: known findings at NaN and at rounding collisions), compareArrays = same length and element-wise equal, compareValues' nil/undefined/mixed-type cases, compareMaps size cases.",
   note="NOT decided deductively: structural equality through reflect Method/Call (sequences, interfaces), map value comparison beyond sizes, single-point-mutation sensitivity over the whole universe. "
-       "Assumed: reflect accessors pure/non-panicking, finite pointer nesting (ptrh), reflect.MapIter delivers rlen entries. Known findings: NaN, complex rounding collisions.",
+       "Assumed: reflect accessors pure/non-panicking, finite pointer nesting (ptrh), reflect.MapIter delivers rlen entries. The collator class constructors (Make, MakeWithMaximum) are under contract and establish the depth invariant; the class default maximum >= 0 is a construction invariant proved where the class is allocated (Collator()). getType: bounded stand-in (see C07). Known findings: NaN, complex rounding collisions.",
   design="DESIGN.md §4.C08"),
 })
 
@@ -117,8 +118,9 @@ CLAIMED.update({
        "(strings.Builder modelled by its accumulated text); (b) balanced depth bookkeeping in every format* function on normal exits; (c) termination of the mutually recursive traversal by the variant (maximum - depth, function rank) — "
        "which holds for multi-item sequences and FAILS for single-item sequences and association values (recorded known finding: a self-containing singleton overflows the stack; witnessed on the real code); "
        "(d) a zero-annotation runtime-safety sweep (nil, index, slice, type assertion) over all format* functions; (e) formatMap writes every key with the value the map holds under that very key (call-site obligations on formatAssociation's operands).",
-  note="NOT decided deductively (no contract within reach): that ParseSource(FormatValue(v)) reproduces v and the text (element order, kinds, key/value pairing, numeric literal languages such as exponent floats) — this needs regexp/strconv semantics and a formatter–parser pair proof; "
-       "no bounded stand-in is registered yet. Assumed: reflect accessors pure and non-panicking, getters return one value, the reflective HasNext call yields a bool (trusted runtime check), strings.Builder contracts.",
+  note="NOT decided deductively (no contract within reach): that ParseSource(FormatValue(v)) reproduces v and the text (element order, kinds, key/value pairing, numeric literal languages such as exponent floats) — this needs regexp/strconv semantics and a formatter–parser pair proof. "
+       "BOUNDED stand-in (labelled bounded, not counted as proved; /verif/bounded/quoted_tokens_test.go, run on the real code through go test -overlay on every check): for every string of length <= 3 over a 14-character alphabet and every rune below 0x300 (plus 8 special ones), the text the formatter writes (strconv.Quote/QuoteRune) is scanned as exactly one token whatever follows it and parses back to the same value. "
+       "The formatter class constructors are now under contract (they establish the depth invariant; the class default is a hypothesis because the class object is allocated by the package initialiser). Assumed: reflect accessors pure and non-panicking, getters return one value, the reflective HasNext call yields a bool (trusted runtime check), strings.Builder contracts.",
   design="DESIGN.md §4.C10"),
 })
 
@@ -128,7 +130,7 @@ CLAIMED.update({
        "a conversion error can no longer be discarded (boolean, complex, float, hexadecimal, integer, nil, rune, string; 8 postconditions on parseIntrinsic, exceptional postcondition on checkLiteral) — for all token texts (symbolic). "
        "Also proved: parseToken returns the token value and type it matched, tokens handed on are non-nil, and every ParseSource call works on a token queue and a push-back stack allocated by that very call (nothing is carried over from an earlier, possibly failed, call).",
   note="NOT decided deductively: that every derivation of Syntax.cdsn is accepted with its intended collection (needs a soundness/completeness proof of the backtracking parser plus regexp ordered-alternation semantics), "
-       "that the push-back stack (capacity 4) never overflows, and independence from goroutine scheduling. A bounded stand-in for grammar acceptance is planned but not registered. "
+       "that the push-back stack (capacity 4) never overflows, and independence from goroutine scheduling. BOUNDED stand-in for the string/rune/escape token patterns (labelled bounded; /verif/bounded/quoted_tokens_test.go, exhaustive over strings of length <= 3 over 14 characters x 5 right contexts and 776 runes): the quoted text is matched as exactly one token of its kind and denotes the Go value; the other token kinds and the collection grammar have no stand-in. "
        "Assumed: strconv.Parse*/Unquote fail exactly when the text has no exact representation and otherwise return its value; MatchToken's first element is the token's match.",
   design="DESIGN.md §4.C11"),
 })
@@ -191,6 +193,15 @@ NOT_YET = {}
 
 TECH = "contract-based deductive verification: weakest-precondition style VCs generated from go/ssa of /repo, contracts in //go:build verif comment files, discharged by z3 5.1 / z3 4.8 / cvc5"
 
+BOUNDED = {
+ "C02": "; the decision is deductive — plus one bounded stand-in (exhaustive finite-domain run of the real code, labelled bounded, never counted as proved) for collator getType, a string classification outside the contract language",
+ "C07": "; the decision is deductive — plus one bounded stand-in (exhaustive finite-domain run of the real code, labelled bounded, never counted as proved) for collator getType, a string classification outside the contract language",
+ "C08": "; the decision is deductive — plus one bounded stand-in (exhaustive finite-domain run of the real code, labelled bounded, never counted as proved) for collator getType, a string classification outside the contract language",
+ "C15": "; the decision is deductive — plus one bounded stand-in (exhaustive finite-domain run of the real code, labelled bounded, never counted as proved) for collator getType, a string classification outside the contract language",
+ "C10": "; the decision is deductive — plus one bounded stand-in (exhaustive finite-domain run of the real code, labelled bounded, never counted as proved) for the scanner's string/rune token patterns (regexp semantics are outside the contract language)",
+ "C11": "; the decision is deductive — plus one bounded stand-in (exhaustive finite-domain run of the real code, labelled bounded, never counted as proved) for the scanner's string/rune token patterns (regexp semantics are outside the contract language)",
+}
+
 def main():
     props = [json.loads(l) for l in open("properties.jsonl")]
     checks, na = [], []
@@ -207,7 +218,7 @@ def main():
                 "engine": "vcgen",
                 "level_claimed": {"category": "proof", "text": c["text"], "design_ref": c["design"]},
                 "level_note": c["note"],
-                "technique": TECH,
+                "technique": TECH + (BOUNDED.get(pid, "")),
             })
         else:
             na.append({"property_id": pid, "reason": NOT_YET.get(pid, "contracts for this property are not finished yet in this tree (time, not the technique; see DESIGN.md §6); the property is not claimed")})
